@@ -11,6 +11,7 @@ import (
 	"math/big"
 	"os"
 
+	"github.com/cloudflare/pat-go/tokens/type3"
 	"github.com/cloudflare/pat-go/util"
 
 	"verif/internal/core"
@@ -72,7 +73,7 @@ func (c c18) Generate(seed uint64, tier string, idx int) *core.Plan {
 		if r.Bool(40) {
 			bits = r.Range(16, 4096)
 		}
-		e := r.Pick([]int{3, 65537, 1<<31 - 1, 17, 257})
+		e := r.Pick([]int{3, 65537, 1<<31 - 1, 17, 257, 1 << 31, 1<<31 + 1, 1<<32 + 1, 1<<40 + 1, 1<<62 + 1, 1<<63 - 1})
 		if r.Bool(20) {
 			e = 3 + 2*r.Intn(1<<29)
 		}
@@ -265,6 +266,7 @@ func (c c18) Execute(p *core.Plan) *core.Result {
 	if !w.Net.Run() {
 		res.Infra = "step budget exhausted"
 	}
+	c.foreignSuites(w, res)
 	for _, id := range w.Order {
 		if s := w.Sessions[id]; s.Finals == 0 && len(res.Violations) == 0 {
 			res.Violate("C18/session-incomplete", fmt.Sprintf("session %d (type %d, issuer generation %d) did not complete", s.ID, s.Type, s.Iss), -1)
@@ -343,3 +345,40 @@ func (c c18) rustKeys(res *core.Result, checkRSA func(string, *rsa.PublicKey)) {
 }
 
 var _ = world.KReq
+
+// foreignSuites: the directory publishes name keys that advertise other registered KDF / AEAD
+// identifiers; a client that decodes such a key and creates a request must carry SHA-256 of
+// the published bytes as name key id (whether the issuer could serve it is not C18's business).
+func (c c18) foreignSuites(w *world.World, res *core.Result) {
+	if len(w.I3) == 0 || len(w.C3) == 0 {
+		return
+	}
+	is := w.I3[0]
+	pub, err := util.UnmarshalTokenKey(is.PubDER)
+	if err != nil {
+		return
+	}
+	for _, ids := range [][2]byte{{2, 1}, {3, 1}, {1, 2}, {1, 3}, {3, 3}} {
+		published := append([]byte(nil), is.NameKeyBytes...)
+		published[len(published)-3], published[len(published)-1] = ids[0], ids[1]
+		nk, err := type3.UnmarshalEncapKey(published)
+		res.Evals++
+		if err != nil {
+			res.Probe("EncapKey with other registered KDF/AEAD ids refused by the decoder")
+			continue
+		}
+		w.Ent.Begin("client", fmt.Sprintf("c18/suite/%d/%d", ids[0], ids[1]))
+		var st type3.RateLimitedTokenRequestState
+		if pv := safely(func() {
+			st, err = w.C3[0].C.CreateTokenRequest([]byte("challenge"), make([]byte, 32), append([]byte{1}, make([]byte, 47)...), is.KeyID, pub, "origin.example", nk)
+		}); pv != nil || err != nil {
+			res.Probe("request creation for a name key with other KDF/AEAD ids failed")
+			continue
+		}
+		want := sha256.Sum256(published)
+		res.Nontrivial(fmt.Sprintf("namekey/kdf%d/aead%d", ids[0], ids[1]))
+		if !bytes.Equal(st.Request().NameKeyID, want[:]) {
+			res.Violate("C18/name-key-id", fmt.Sprintf("name key published with kdf id %d / aead id %d: the request's name key id is not SHA-256 of the published EncapKey bytes", ids[0], ids[1]), -1)
+		}
+	}
+}
